@@ -5,7 +5,7 @@
 
     (a) finite facts about the descriptor sets REGENERATED on every run into [Gen/Descriptors.v]
         from the two registries of one process that links both families (gogoproto:
-        modules/*/types/*.pb.go; protobuf-go "pulsar": api/irismod/**).  Each is a decidable
+        modules/<m>/types/<f>.pb.go; protobuf-go "pulsar": the tree under api/irismod).  Each is a decidable
         check evaluated by [vm_compute] and lifted by a general soundness lemma
         ([dec_eq_sound], [mem_str_sound], [resolves_sound] in [Proto/DescProofs.v]).  The
         finiteness is in the statements: they are about the constants [gogo_files],
@@ -52,7 +52,7 @@ Proof.
 Qed.
 Print Assumptions all_sources_generated.
 
-(** The text of proto/irismod/**/*.proto says the same as the descriptors, on the table
+(** The text of the .proto files under proto/irismod says the same as the descriptors, on the table
     (file, package, message, field name, number, type, repeated, signer option, enum, value,
     service, is-Msg-service, method, request, response, streaming). *)
 Theorem proto_sources_agree : source_rows = desc_rows pulsar_files.
@@ -96,10 +96,10 @@ Theorem resolves_sound :
 Proof. exact DescProofs.resolves_sound. Qed.
 Print Assumptions resolves_sound.
 
-(** the two families name the same transaction messages; there are 67 of them, one nested *)
+(** the two families name the same transaction messages; there are 66 of them, one nested *)
 Example tx_messages_nontrivial :
   tx_messages gogo_files = tx_messages pulsar_files
-  /\ length (tx_messages gogo_files) = 67%nat
+  /\ length (tx_messages gogo_files) = 66%nat
   /\ In "irismod.coinswap.MsgSwapOrder" (tx_messages gogo_files)
   /\ (exists m, find_msg "irismod.coinswap.MsgSwapOrder" (all_msgs gogo_files) = Some m /\ m_signers m = ["input"]).
 Proof.
@@ -175,7 +175,7 @@ Theorem roundtrip_absent_nonnullable_refuted :
     encode penv name v <> None /\ encode genv name v <> None
     /\ gogo_enc FUEL genv name v <> enc v
     /\ gogo_enc FUEL genv name v =
-         unhex_bytes "0a03120130" ++ unhex_bytes "120130" ++ unhex_bytes "1a0130" ++ enc v.
+         (unhex_bytes "0a03120130" ++ unhex_bytes "120130" ++ unhex_bytes "1a0130" ++ enc v)%list.
 Proof.
   exists "irismod.coinswap.MsgAddLiquidity", (VMsg [(4, VInt 5); (5, VB "69616131")])%N.
   split; [vm_compute; discriminate|]. split; [vm_compute; discriminate|].
@@ -191,7 +191,7 @@ Example populated_nonvacuous :
   typedb genv (WMsg "irismod.coinswap.MsgAddLiquidity") v = true
   /\ canonb genv (WMsg "irismod.coinswap.MsgAddLiquidity") v = true
   /\ populatedb FUEL genv (WMsg "irismod.coinswap.MsgAddLiquidity") v = true
-  /\ length (enc v) = 38%nat.
+  /\ length (enc v) = 37%nat.
 Proof. cbv zeta. repeat split; vm_compute; reflexivity. Qed.
 
 (** the identity of the known findings is computed from the descriptors: 96 non-nullable
